@@ -1309,6 +1309,13 @@ class NLargest(ReductionConstantDim):
     def aggregate_kwargs(self):
         return self.chunk_kwargs
 
+    def _simplify_up(self, parent, dependents):
+        if isinstance(parent, Projection):
+            # the ordering columns are needed even if they are not selected
+            return plain_column_projection(
+                self, parent, dependents, additional_columns=self._columns
+            )
+
 
 def _nfirst(df, columns, n, ascending):
     return df.sort_values(by=columns, ascending=ascending).head(n)
